@@ -121,6 +121,18 @@ reg("C08", "exploration",
     "Reference bands as worded in the property; the band between rel*min and rel*max is left open.",
     "DESIGN.md 3/C08")
 
+reg("C09", "model_checking",
+    "breadth-first search over all multisets of creation / clone events up to a depth bound on "
+    "the real API, invariants evaluated in every state",
+    "States are canonical multisets of object descriptors (creations commute, nothing is "
+    "destroyed); each of them is re-created on the live process, whose counters only grow, so the "
+    "search also crosses the digit boundaries of every name counter. In every state: pairwise "
+    "inequality / distinct hashes / distinct internal names, isolation of subs / diff / solve on a "
+    "linear combination with prime coefficients, the clone contract (dimension, display names, "
+    "subscript on code and LaTeX names, assumptions) and the three printers.",
+    "Depth 3 (quick) / 4 (thorough); quantities are constants and are compared at value level "
+    "(sympy may express one quantity through another of the same dimension).", "DESIGN.md 3/C09")
+
 
 def build() -> dict:
     props = [json.loads(l)["id"] for l in open(os.path.join(ROOT, "properties.jsonl"))]
